@@ -420,3 +420,42 @@ Proof.
   exists (lincomb (R := Z_cring) (length B') ((- h)%Z :: e) Wc). split; [exact Hlen|].
   apply (f_equal (@tl Z)) in Heq. cbn [tl] in Heq. rewrite tl_lincomb in Heq. exact Heq.
 Qed.
+
+(* ---- the three validators together: the rows are a BASIS of the relation lattice ---- *)
+Theorem rational_basis_correct ps facts bs B' Rb d2 V1 Wa Wc Rt d :
+  check_relations (R := Qc_cring) (map qbase bs) (map (@tl Z) B') = true ->
+  check_independent_Z (map (@tl Z) B') Rb d2 = true ->
+  check_rational_generates ps facts bs B' V1 Wa Wc Rt d = true ->
+  (forall row, In row (map (@tl Z) B') -> length row = length bs /\ qrelation bs row) /\
+  (forall c : list Z, length c = length B' ->
+     forall k, zlincomb k c (map (@tl Z) B') = zeros (R := Z_cring) k -> Forall (fun x => x = 0%Z) c) /\
+  (forall e : list Z, length e = length bs ->
+     (qrelation bs e <-> exists c : list Z, length c = length B' /\ e = zlincomb (length bs) c (map (@tl Z) B'))).
+Proof.
+  intros Hrel Hind Hgen.
+  apply (check_relations_sound Qc_cring) in Hrel. destruct Hrel as [Hok Hrows].
+  split; [|split].
+  - intros row Hrow. destruct (Hrows row Hrow) as [HL HR]. rewrite map_length in HL. split; assumption.
+  - intros c Hc k Hz. apply (check_independent_Z_sound _ _ _ Hind c) with (k := k); [rewrite map_length; exact Hc | exact Hz].
+  - intros e He. split.
+    + apply (rational_basis_complete ps facts bs B' V1 Wa Wc Rt d Hgen e He).
+    + intros [c [_ ->]]. unfold qrelation, zlincomb.
+      apply (relations_closed Qc_cring _ _ Hok). intros r Hr. apply (Hrows r Hr).
+Qed.
+
+(* any ring (quadratic towers): soundness, independence, and the whole Z-span consists of
+   relations.  PARTIAL: that the span is ALL relations is not proved for non-rational bases. *)
+Theorem general_basis_partial (R : cring) (bs : list (R * R)) (B Rb : list (list Z)) (d : Z) :
+  check_relations bs B = true ->
+  check_independent_Z B Rb d = true ->
+  inverses_ok bs /\
+  (forall row, In row B -> length row = length bs /\ is_relation bs row) /\
+  (forall c : list Z, length c = length B ->
+     forall k, zlincomb k c B = zeros (R := Z_cring) k -> Forall (fun x => x = 0%Z) c) /\
+  (forall k c, is_relation bs (zlincomb k c B)).
+Proof.
+  intros Hrel Hind. apply (check_relations_sound R) in Hrel. destruct Hrel as [Hok Hrows].
+  split; [exact Hok|]. split; [exact Hrows|]. split.
+  - intros c Hc k Hz. apply (check_independent_Z_sound _ _ _ Hind c Hc k Hz).
+  - intros k c. apply (relations_closed R _ _ Hok). intros r Hr. apply (Hrows r Hr).
+Qed.
